@@ -190,7 +190,7 @@ end CV.Props.C08
 namespace CV.Props.C08
 
 /-- (facts, regenerated from the source on every run) **The source text the model transcribes is the text of the
-    current source**: the bodies (comments and layout removed) of the 11 functions the model behind C08 was written from and
+    current source**: the bodies (comments and layout removed) of the 21 functions the model behind C08 was written from and
     validated against.  Any edit of one of them breaks this theorem at build time; the check then searches with the
     property's own oracles for a failing input, and reports `no-failing-input-found` if it finds none: the model then
     has to be re-validated against the new text (and this block regenerated). -/
@@ -199,13 +199,23 @@ theorem source_decision_logic : CV.Facts.logicC08 = [
   "clover..compareDocuments: { for _, opt := range sortOpts { field := opt.Field direction := opt.Direction firstHas := first.Has(field) secondHas := second.Has(field) if !firstHas && secondHas { return -direction } if firstHas && !secondHas { return direction } if firstHas && secondHas { res := internal.Compare(first.Get(field), second.Get(field)) if res != 0 { return res * direction } } } return 0 }", 
   "clover..execPlan: { if err := nd.Run(tx); err != nil { return err } for curr := nd.(planNode); curr != nil; curr = curr.NextNode() { if err := curr.Finish(); err != nil { return err } } return nil }", 
   "clover.consumerNode.Callback: { return nd.consumer(doc) }", 
+  "clover.planNodeBase.CallNext: { if nd.next != nil { return nd.next.Callback(doc) } return nil }", 
+  "clover.planNodeBase.Callback: { return nil }", 
+  "clover.planNodeBase.Finish: { return nil }", 
+  "clover.planNodeBase.NextNode: { return nd.next }", 
+  "clover.planNodeBase.SetNext: { nd.next = next }", 
   "clover.skipLimitNode.Callback: { if nd.skipped < nd.skip { nd.skipped++ return nil } if nd.limit < 0 || (nd.limit >= 0 && nd.consumed < nd.limit) { nd.consumed++ return nd.CallNext(doc) } return internal.ErrStopIteration }", 
   "clover.sortNode.Callback: { if nd.docs == nil { nd.docs = make([]*d.Document, 0) } nd.docs = append(nd.docs, doc) return nil }", 
   "clover.sortNode.Finish: { if nd.docs != nil { sort.Slice(nd.docs, func(i, j int) bool { return compareDocuments(nd.docs[i], nd.docs[j], nd.opts) < 0 }) for _, doc := range nd.docs { if err := nd.CallNext(doc); err != nil { if errors.Is(err, internal.ErrStopIteration) { return nil } return err } } } return nil }", 
   "query..normalizeSortOptions: { normOpts := make([]SortOption, 0, len(opts)) for _, opt := range opts { if opt.Direction >= 0 { normOpts = append(normOpts, SortOption{Field: opt.Field, Direction: 1}) } else { normOpts = append(normOpts, SortOption{Field: opt.Field, Direction: -1}) } } return normOpts }", 
+  "query.Query.Collection: { return q.collection }", 
+  "query.Query.Criteria: { return q.criteria }", 
+  "query.Query.GetLimit: { return q.limit }", 
+  "query.Query.GetSkip: { return q.skip }", 
   "query.Query.Limit: { newQuery := q.copy() newQuery.limit = n return newQuery }", 
   "query.Query.Skip: { if n >= 0 { newQuery := q.copy() newQuery.skip = n return newQuery } return q }", 
-  "query.Query.Sort: { if len(opts) == 0 { opts = []SortOption{{Field: d.ObjectIdField, Direction: 1}} } else { opts = normalizeSortOptions(opts) } newQuery := q.copy() newQuery.sortOpts = opts return newQuery }"] := by rfl
+  "query.Query.Sort: { if len(opts) == 0 { opts = []SortOption{{Field: d.ObjectIdField, Direction: 1}} } else { opts = normalizeSortOptions(opts) } newQuery := q.copy() newQuery.sortOpts = opts return newQuery }", 
+  "query.Query.SortOptions: { return q.sortOpts }"] := by rfl
 
 end CV.Props.C08
 -- SOURCE-TEXT-END
